@@ -7,6 +7,9 @@ C04 line-protocol driver: prints `model <TAB> spec` for each case line.
 Output of a line: `<ret> <state obj k> <state other>` with state = `size:[units]:nul`.
 `pre`   : the call is outside the compared domain (std throws / UB / `\pre len <= Capacity`): nothing is executed.
 `clamp inv=b`: the std result does not fit; only the invariant is compared, the reference is re-synchronised.
+`ov=self|selfsub|selfsubv|selfptr`: the argument is (a part of) the string object itself (model: `Str.selfStep`, spec: the
+same call with an independent copy of the denoted characters).
+`erase_if pred=<eq|ne|lt|ge|odd|all|none> v=<n>`: free `etl::erase_if` with that predicate on the unsigned code unit.
 Fill counts are cut to `cap+1` on the spec side only (the result does not fit either way; avoids `replicate npos`).
 -/
 import Tetl.Proto
@@ -71,6 +74,23 @@ def parseArg (l : Line) (ov : String) : Option Arg :=
   | "strsub" => do some (.strsub (← posArg l "pos2") (← posArg l "count2" (some NPOS)))
   | "strsubv" => do some (.strsubv (← posArg l "pos2") (← posArg l "count2" (some NPOS)))
   | "ch" => do some (.ch (← l.nat? "ch"))
+  | "self" => some .str
+  | "selfsub" => do some (.strsub (← posArg l "pos2") (← posArg l "count2" (some NPOS)))
+  | "selfsubv" => do some (.strsubv (← posArg l "pos2") (← posArg l "count2" (some NPOS)))
+  | "selfptr" => do some (.ptr (← l.nat? "off") (← l.nat? "n"))
+  | _ => none
+
+/-- the predicates of the `erase_if` lines -/
+def parsePred (l : Line) : Option (Nat → Bool) :=
+  let v := (l.nat? "v").getD 0
+  match l.str? "pred" with
+  | some "eq" => some fun x => x == v
+  | some "ne" => some fun x => x != v
+  | some "lt" => some fun x => x < v
+  | some "ge" => some fun x => x ≥ v
+  | some "odd" => some fun x => x % 2 == 1
+  | some "all" => some fun _ => true
+  | some "none" => some fun _ => false
   | _ => none
 
 structure Sel where
@@ -155,10 +175,16 @@ def step (st? : Option St) (l : Line) : Option St × String :=
   let x := st.sel k
   let ov := (l.str? "ov").getD ""
   let arg := parseArg l ov
+  let isSelf := ov.startsWith "self"
+  -- a member called with (a part of) the string itself: model `selfStep`, spec = the call with an independent copy
+  let selfCall (mk : Arg → SelfOp) : Option St × String :=
+    match arg with
+    | some a => mutateR st x (do let m' ← x.m.selfStep (mk a); .ok (m', none)) ((a.den x.s).map fun d => (mk a).plain d)
+    | none => bad st?
   let h := x.m.chars
-  -- needle of a search/compare overload: (model view, spec view)
+  -- needle of a compare overload: (model view, spec view)
   let needle : Option (Except Err Units × Option Spec.Str) :=
-    arg.map fun a => ((do let s ← a.src x.o; .ok ((s.arr.drop s.off).take s.len)), a.den x.so)
+    arg.map fun a => (a.units x.o, a.den x.so)
   match l.op with
   | "state" => query st x (.ok "-") (some "-")
   | "raw" => (some st, s!"{fmtNatList x.m.buf}\t*")
@@ -173,7 +199,8 @@ def step (st? : Option St) (l : Line) : Option St × String :=
   | "front" => query st x (do .ok (toString (← x.m.front))) (x.s.head?.map toString)
   | "back" => query st x (do .ok (toString (← x.m.back))) (x.s.getLast?.map toString)
   | "assign" | "opassign" | "ctor" =>
-    if ov == "fill" then
+    if isSelf then selfCall .assign
+    else if ov == "fill" then
       match l.nat? "count", l.nat? "ch" with
       | some c, some ch => mutate st x (.ok (.assignFill c ch)) (some (.assignFill (min c (st.cap + 1)) ch))
       | _, _ => bad st?
@@ -197,7 +224,8 @@ def step (st? : Option St) (l : Line) : Option St × String :=
     | none => bad st?
   | "pop_back" => mutate st x (.ok .popBack) (some .popBack)
   | "append" | "pluseq" =>
-    if ov == "fill" then
+    if isSelf then selfCall .append
+    else if ov == "fill" then
       match posArg l "count", l.nat? "ch" with
       | some c, some ch => mutate st x (.ok (.appendFill c ch)) (some (.appendFill (min c (st.cap + 1)) ch))
       | _, _ => bad st?
@@ -216,7 +244,8 @@ def step (st? : Option St) (l : Line) : Option St × String :=
     match l.nat? "idx" with
     | none => bad st?
     | some idx =>
-      if ov == "fill" then
+      if isSelf then selfCall (.insert idx)
+      else if ov == "fill" then
         match l.nat? "count", l.nat? "ch" with
         | some c, some ch => mutate st x (.ok (.insertFill idx c ch)) (some (.insertFill idx (min c (st.cap + 1)) ch))
         | _, _ => bad st?
@@ -241,6 +270,15 @@ def step (st? : Option St) (l : Line) : Option St × String :=
   | "erase_value" =>
     match l.nat? "ch" with
     | some v => mutate st x (.ok (.eraseValue v)) (some (.eraseValue v))
+    | none => bad st?
+  | "erase_if" =>
+    match parsePred l with
+    | some p =>
+      let keep := x.s.filter fun c => !p c
+      match x.m.eraseIf p with
+      | .error e => (some st, fmtErr e ++ "\t" ++ s!"{x.s.length - keep.length} {sState keep} {sState x.so}")
+      | .ok (m', r) =>
+        (some (st.put x.k m' keep), s!"{r} {mState m'} {mState x.o}" ++ "\t" ++ s!"{x.s.length - keep.length} {sState keep} {sState x.so}")
     | none => bad st?
   | "resize" =>
     match posArg l "count", l.nat? "ch" with
@@ -267,31 +305,25 @@ def step (st? : Option St) (l : Line) : Option St × String :=
   | "plus" =>
     match ov with
     | "strstr" =>
-      let m := do let s ← Arg.src x.o .str; appendRange s.arr s.len s.off x.m
-      let r := resultStr st.cap m (some (x.s ++ x.so)) false
+      let r := resultStr st.cap (plusStrStr x.m x.o) (some (x.s ++ x.so)) false
       query st x r.1 r.2
     | "strcstr" =>
       match l.natList? "s" with
       | some s =>
-        let m := do let a ← Arg.src x.o (.cstr s); x.m.appendPtrN a
-        let r := resultStr st.cap m (some (x.s ++ s.takeWhile (· ≠ 0))) false
+        let r := resultStr st.cap (plusStrCstr x.m s) (some (x.s ++ s.takeWhile (· ≠ 0))) false
         query st x r.1 r.2
       | none => bad st?
     | "strch" =>
       match l.nat? "ch" with
       | some c =>
-        let r := resultStr st.cap (x.m.appendFill 1 c) (some (x.s ++ [c])) false
+        let r := resultStr st.cap (plusStrCh x.m c) (some (x.s ++ [c])) false
         query st x r.1 r.2
       | none => bad st?
     | "cstrstr" =>
       match l.natList? "s" with
       | some s =>
         let lhs := s.takeWhile (· ≠ 0)
-        let m := do
-          let a ← Arg.src x.o (.cstr s)
-          let t ← ctorPtrLen st.cap a.arr a.off a.len
-          let n ← x.m.size
-          appendRange x.m.buf n 0 t
+        let m := plusCstrStr s x.m
         if lhs.length > st.cap then query st x (m.map mState) none
         else
           let r := resultStr st.cap m (some (lhs ++ x.s)) false
@@ -300,10 +332,7 @@ def step (st? : Option St) (l : Line) : Option St × String :=
     | "chstr" =>
       match l.nat? "ch" with
       | some c =>
-        let m := do
-          let t ← ctorFill st.cap 1 c
-          let n ← x.m.size
-          appendRange x.m.buf n 0 t
+        let m := plusChStr c x.m
         if 1 > st.cap then query st x (m.map mState) none
         else
           let r := resultStr st.cap m (some (c :: x.s)) false
@@ -373,47 +402,40 @@ def step (st? : Option St) (l : Line) : Option St × String :=
       | none => bad st?
     | _ => bad st?
   | "starts_with" | "ends_with" | "contains" =>
-    match needle with
+    match arg with
     | none => bad st?
-    | some (nm, ns) =>
-      let isCh := ov == "ch"
-      let c := (l.nat? "ch").getD 0
-      let m : Except Err Bool := do
-        let hh ← h
-        let n ← nm
+    | some a =>
+      let m : Except Err Bool :=
         match l.op with
-        | "starts_with" => if isCh then C08.startsWithChar hh c else C08.startsWith hh n
-        | "ends_with" => if isCh then C08.endsWithChar hh c else C08.endsWith hh n
-        | _ => C08.contains hh n
-      let s := ns.map fun n =>
+        | "starts_with" => x.m.startsWith x.o a
+        | "ends_with" => x.m.endsWith x.o a
+        | _ => x.m.contains x.o a
+      let s := (a.den x.so).map fun n =>
         match l.op with
         | "starts_with" => C08.Spec.startsWith x.s n
         | "ends_with" => C08.Spec.endsWith x.s n
         | _ => C08.Spec.contains x.s n
       query st x (m.map fmtBool) (s.map fmtBool)
   | "find" | "rfind" | "find_first_of" | "find_first_not_of" | "find_last_of" | "find_last_not_of" =>
-    match needle with
+    match arg with
     | none => bad st?
-    | some (nm, ns) =>
-      let isCh := ov == "ch"
-      let c := (l.nat? "ch").getD 0
-      -- defaults as written in the header
+    | some a =>
+      -- `pos` absent: the model resolves the default written in the header, the spec uses the default of the standard
       let forward := l.op == "find" || l.op == "find_first_of" || l.op == "find_first_not_of"
-      let dfltModel : Nat := if forward then 0 else if l.op == "rfind" then 0 else NPOS
       let dfltSpec : Nat := if forward then 0 else NPOS
-      match posArg l "pos" (some dfltModel), posArg l "pos" (some dfltSpec) with
-      | some pm, some ps =>
-        let m : Except Err (Option Nat) := do
-          let hh ← h
-          let n ← nm
+      let posM : Option (Option Nat) := if (l.get? "pos").isNone then some none else (posArg l "pos").map some
+      match posM with
+      | some pm =>
+        let ps := pm.getD dfltSpec
+        let m : Except Err (Option Nat) :=
           match l.op with
-          | "find" => stringsFind hh n pm
-          | "rfind" => if isCh then C08.rfindChar hh c pm else C08.rfind hh n pm
-          | "find_first_of" => findFirstOf hh n pm
-          | "find_first_not_of" => if isCh then C08.findFirstNotOfChar hh c pm else C08.findFirstNotOf hh n pm
-          | "find_last_of" => C08.findLastOf hh n pm
-          | _ => C08.findLastNotOf hh n pm
-        let s := ns.map fun n =>
+          | "find" => x.m.find x.o a pm
+          | "rfind" => x.m.rfind x.o a pm
+          | "find_first_of" => x.m.findFirstOf x.o a pm
+          | "find_first_not_of" => x.m.findFirstNotOf x.o a pm
+          | "find_last_of" => x.m.findLastOf x.o a pm
+          | _ => x.m.findLastNotOf x.o a pm
+        let s := (a.den x.so).map fun n =>
           match l.op with
           | "find" => C08.Spec.find x.s n ps
           | "rfind" => C08.Spec.rfind x.s n ps
@@ -422,7 +444,7 @@ def step (st? : Option St) (l : Line) : Option St × String :=
           | "find_last_of" => C08.Spec.findLastOf x.s n ps
           | _ => C08.Spec.findLastNotOf x.s n ps
         query st x (m.map fmtP) (s.map fmtP)
-      | _, _ => bad st?
+      | none => bad st?
   | "replace" =>
     -- overwrite-only family (known finding): the spec is std::replace, the model is str_replace
     let p1 := posArg l "pos"
